@@ -71,3 +71,46 @@ def literal_queries():
             lit = q + body + q
             out += [f"$[{lit}]", f"$[?@ == {lit}]", f"$[?@.a == {lit} && @.b]", f"$[{lit}, 0]", f"$[?match(@, {lit})]", f"$[{lit}", f"$[?@ == {lit}"]
     return out
+
+
+def skeletons(rng, per_slot: int = 1):
+    """Typed skeletons of filter expressions: every operand category (literal, singular /
+    non-singular query, ValueType / LogicalType call - plain, parenthesised, negated, doubly
+    so) in every syntactic slot (test, either comparand, under '!', in parentheses, operand of
+    && / ||, function argument, comparison chains).  Most of them are NOT valid; the
+    specification decides which.  Near-misses that need several coordinated edits of a valid
+    query are reached here systematically."""
+    base = {
+        "LIT": ["1", "'a'", "true", "null", "-0", "1.5e1", '"b"', "false"],
+        "SQ": ["@.a", "$.b[0]", "@", "$", "@['a'][1]"],
+        "NQ": ["@.*", "@..a", "@[0,1]", "$[1:]", "@[?@.a]"],
+        "CV": ["length(@.a)", "count(@.*)", "value(@.*)"],
+        "CL": ["match(@.a, 'b')", "search(@, 'b')"],
+    }
+    forms = []
+    for cat, exs in base.items():
+        for wrap in ("{x}", "({x})", "!{x}", "(({x}))", "!({x})", "( {x} )", "!(!{x})", "(!{x})"):
+            forms.append((cat, wrap, exs))
+
+    def pick():
+        cat, wrap, exs = rng.choice(forms)
+        return wrap.format(x=rng.choice(exs))
+
+    def all_forms():
+        for cat, wrap, exs in forms:
+            for ex in (exs if per_slot > 1 else [rng.choice(exs)]):
+                yield wrap.format(x=ex)
+
+    one = ["{X}", "!{X}", "({X})", "!({X})", "{X} == 1", "1 == {X}", "{X} < 'a'", "{X} != {X}", "{X} && @.b", "@.b || {X}",
+           "count({X}) == 1", "length({X}) == 1", "value({X}) == 1", "match({X}, 'a')", "match(@.a, {X})", "{X} == 1 == 1",
+           "@.b && {X} == 1", "!{X} == 1", "{X}, 0", "0, ?{X}", "@[?{X}]", "$[?{X}] == 1", "({X}) && ({X})", "{X} == {X} || {X}"]
+    out = []
+    for t in one:
+        for x in all_forms():
+            out.append("$[?" + t.replace("{X}", x) + "]")
+    two = ["{X} == {Y}", "{X} && {Y}", "{X} || {Y} && {X}", "({X} == {Y})", "!({X} == {Y})", "({X}) == {Y}", "{X} == ({Y})",
+           "match({X}, {Y})", "{X} <= {Y} || {Y}", "({X} || {Y}) == 1"]
+    for t in two:
+        for _ in range(120):
+            out.append("$[?" + t.replace("{X}", pick()).replace("{Y}", pick()) + "]")
+    return list(dict.fromkeys(out))
